@@ -104,7 +104,7 @@ ALL_KEYS = ["1", "x", "xx'", "Ax+a", "quad_inner", "quad_outer", "cubic_inner", 
 def cases(seed, tier):
     rng = gen.rng_path(seed, "C03")
     out = []
-    shapes = [(2, 3, 2, 4, 5), (1, 1, 1, 1, 1), (3, 2, 2, 3, 1)]
+    shapes = [(2, 3, 2, 4, 5), (1, 1, 1, 1, 1), (3, 2, 2, 3, 1), (2, 2, 2, 2, 2)]    # the last: every form may omit its matrix
     for _ in range(1 if tier == "quick" else 8):
         K, L, M = [int(x) for x in rng.permutation(5)[:3] + 1]
         shapes.append((int(rng.integers(1, 4)), int(rng.integers(1, 7)), K, L, M))
@@ -114,6 +114,8 @@ def cases(seed, tier):
         [(1, 2), (2, 1), (1, 1), (2, 2)],   # mixed
         [(0, 0), (1, 1), (0, 1), (1, 0)],   # defaults
         [(1, 0), (0, 0), (2, 2), (0, 2)],
+        [(0, 1), (0, 2), (0, 1), (0, 2)],   # only the offset vectors given (matrices default to the identity)
+        [(0, 2), (1, 1), (0, 0), (0, 1)],
     ]
     for si, (R, D, K, L, M) in enumerate(shapes):
         for key in ALL_KEYS:
@@ -122,10 +124,12 @@ def cases(seed, tier):
                     continue
                 if key in ("xbxx", "xAxx") and mi > 1:
                     continue
-                if tier == "quick" and si >= 2 and mi >= 3:
+                if tier == "quick" and si == 2 and mi >= 3:
                     continue
+                if si == 3 and mi < 3 and tier == "quick":
+                    continue                # shape 3 is there for the default-handling mode sets
                 for exact in (False, True):
-                    if exact and (mi in (2, 4)) and tier == "quick":
+                    if exact and (mi in (2, 4, 6)) and tier == "quick":
                         continue
                     out.append(case_key(key, R, D, K, L, M, modes, exact, f"s{si}m{mi}"))
     return seeded(out, seed)
